@@ -3862,6 +3862,12 @@ where
     where
         K::Scalar: ScalarSummable,
     {
+        #[cfg(delaunay_verif)]
+        if crate::verif::fail::hit("prim.canonicalize_after_repair") {
+            return Err(DelaunayRepairError::PostconditionFailed {
+                message: "verif: injected failure at prim.canonicalize_after_repair".to_string(),
+            });
+        }
         if self.tri.tds.number_of_cells() == 0 {
             return Ok(());
         }
